@@ -243,6 +243,197 @@ class _Finfo:
         self.eps = _P2(f, 1 - f.p)
 
 
+class _FV:
+    """Abstract scalar argument of diff_ulp: a finite value of known sign whose lattice ordinal is a symbol, an infinity,
+    or a NaN (ordinal symbol above the infinity)."""
+    __absint_host__ = True
+
+    def __init__(self, fmt, name, cls, sign, absd=False):
+        self.fmt, self.name, self.cls, self.sign, self.absd = fmt, name, cls, sign, absd
+        self.dtype = _DtObj(fmt)
+
+    def _z(self, o):
+        if not (isinstance(o, (int, float)) and o == 0):
+            raise TypeError("comparison of a float argument with a non-zero value is not modelled")
+
+    def __lt__(self, o):
+        self._z(o)
+        return self.cls != "nan" and self.sign < 0
+
+    def __gt__(self, o):
+        self._z(o)
+        return self.cls != "nan" and self.sign > 0
+
+    def __le__(self, o):
+        self._z(o)
+        return self.cls != "nan" and self.sign <= 0
+
+    def __ge__(self, o):
+        self._z(o)
+        return self.cls != "nan" and self.sign >= 0
+
+    def __eq__(self, o):
+        self._z(o)
+        return self.cls == "fin" and self.sign == 0
+
+    def __ne__(self, o):
+        return not self.__eq__(o)
+
+    __hash__ = None
+
+    def __abs__(self):
+        return _FV(self.fmt, self.name, self.cls, abs(self.sign), True)
+
+    def __neg__(self):
+        return _FV(self.fmt, self.name, self.cls, -self.sign, False)
+
+    def view(self, t=None):
+        from sa.linint import Lin
+
+        f = self.fmt
+        signbit = (1 << (f.bits - 1)) if (self.sign < 0 and not self.absd) else 0
+        if self.cls == "fin":
+            return (Lin.sym("i" + self.name) if self.sign != 0 else Lin({}, 0)) + signbit
+        if self.cls == "inf":
+            return Lin({}, f.inf_ord + signbit)
+        return Lin.sym("n" + self.name) + signbit
+
+
+class _FConst:
+    __absint_host__ = True
+
+    def __init__(self, ordv):
+        self.ordv = ordv
+
+    def view(self, t=None):
+        from sa.linint import Lin
+
+        return Lin({}, self.ordv)
+
+
+class _DtObj:
+    __absint_host__ = True
+
+    def __init__(self, fmt):
+        from sa.absint import ModRef
+
+        self.fmt = fmt
+        self.type = ModRef("ext", f"numpy.float{fmt.bits}")
+
+
+class _FinfoObj:
+    __absint_host__ = True
+
+    def __init__(self, dt):
+        f = dt.fmt
+        self.smallest_normal = self.tiny = _FConst(1 << (f.p - 1))
+        self.smallest_subnormal = _FConst(1)
+        self.max = _FConst(f.inf_ord - 1)
+        self.bits = f.bits
+
+
+def check_scalar_distance(r, repo, scalar, rule="R14.4"):
+    """The scalar branch of diff_ulp is interpreted on abstract arguments: every combination of (class, sign) of x and y with
+    the lattice ordinals of |x| and |y| as integer symbols, in a path-sensitive linear-inequality domain (sa/linint.py).
+    On every feasible path the returned expression must equal |pos(x) - pos(y)| where pos(v) = sign(v) * P(ordinal of |v|),
+    P the identity, or with flushing the documented collapse (ordinal - i above the largest subnormal i, else 0 or 1 by
+    rounding to the nearer of zero and the smallest normal); non-finite pairs give 0 for identical infinities / NaNs under
+    equal_nan and the out-of-range marker 2**bits otherwise.  This is the integer distance on the float lattice, so chain
+    additivity and the behaviour across zero and across binades follow."""
+    from sa.absint import Interp, Unsupported as IUnsupported, PyRaise, _Return
+    from sa.linint import Lin, Paths
+
+    def as_int(v):
+        if isinstance(v, Lin):
+            return v
+        return int(v)
+
+    ext = {
+        "numpy.isfinite": lambda v: v.cls == "fin", "numpy.isnan": lambda v: v.cls == "nan", "numpy.isinf": lambda v: v.cls == "inf",
+        "numpy.isposinf": lambda v: v.cls == "inf" and v.sign > 0, "numpy.isneginf": lambda v: v.cls == "inf" and v.sign < 0,
+        "numpy.finfo": _FinfoObj, "numpy.abs": abs, "numpy.absolute": abs, "numpy.signbit": lambda v: v.sign < 0,
+    }
+    classes = [("fin", 1), ("fin", -1), ("fin", 0), ("inf", 1), ("inf", -1), ("nan", 1)]
+    n_paths = n_cases = 0
+    nan_same_payload = set()
+    for bits in (16, 32, 64):
+        fmt = _Fmt(bits)
+        fmt.inf_ord = ((1 << {16: 5, 32: 8, 64: 11}[bits]) - 1) << (fmt.p - 1)
+        i_sub = (1 << (fmt.p - 1)) - 1
+        marker = 2 ** bits
+        bad = []
+        for flush in (False, True):
+            for equal_nan in (False, True):
+                for cx, sx in classes:
+                    for cy, sy in classes:
+                        n_cases += 1
+                        facts = []
+                        for nm, c in (("x", cx), ("y", cy)):
+                            if c == "fin":
+                                facts += [(Lin.sym("i" + nm) - 1, ">="), (Lin({}, fmt.inf_ord - 1) - Lin.sym("i" + nm), ">=")]
+                            elif c == "nan":
+                                facts += [(Lin.sym("n" + nm) - fmt.inf_ord - 1, ">="), (Lin({}, (1 << (bits - 1)) - 1) - Lin.sym("n" + nm), ">=")]
+
+                        def P(k):
+                            if not flush:
+                                return k
+                            if k > i_sub:
+                                return k - i_sub
+                            return 0 if 2 * k <= i_sub else 1
+
+                        def run():
+                            I = Interp(repo)
+                            I.ext_calls = ext
+                            env = {"x": _FV(fmt, "x", cx, sx), "y": _FV(fmt, "y", cy, sy), "flush_subnormals": flush, "equal_nan": equal_nan,
+                                   "int": as_int, "abs": abs}
+                            try:
+                                I.exec_block(scalar.body, env, REL)
+                                got = None
+                            except _Return as ret:
+                                got = ret.v
+                            if cx == "fin" and cy == "fin":
+                                kx = Lin.sym("ix") if sx else Lin({}, 0)
+                                ky = Lin.sym("iy") if sy else Lin({}, 0)
+                                want = abs(Lin.lift(sx * P(kx)) - Lin.lift(sy * P(ky)))
+                            elif (cx, sx) == (cy, sy) and cx == "inf":
+                                want = Lin({}, 0)
+                            elif cx == "nan" and cy == "nan" and equal_nan:
+                                want = Lin({}, 0)
+                            else:
+                                want = Lin({}, marker)
+                            g = Lin.lift(got) if got is not None and not isinstance(got, Lin) and isinstance(got, int) else got
+                            return g, want
+
+                        try:
+                            for ctx, (got, want) in Paths.explore(run, base_facts=facts):
+                                n_paths += 1
+                                ok = isinstance(got, Lin) and (got.same(want) or ctx.entails(got - want, "==") is True)
+                                if not ok and cx == "nan" and cy == "nan" and not equal_nan and isinstance(got, Lin) and got.same(Lin({}, 0)) \
+                                        and ctx.entails(Lin.sym("nx") - Lin.sym("ny"), "==") is True:
+                                    nan_same_payload.add(bits)  # outside C14 (finite values): NaNs with identical bit patterns are at distance 0
+                                    continue
+                                if not ok:
+                                    bad.append((flush, equal_nan, (cx, sx), (cy, sy), ctx.describe(), repr(got), repr(want)))
+                        except (IUnsupported, PyRaise, TypeError) as e:
+                            raise AnalysisError(f"diff_ulp scalar branch is not interpretable for x={cx, sx} y={cy, sy} flush={flush}: {getattr(e, 'what', e)}")
+        if bad:
+            seen = set()
+            for flush, eqn, X, Y, path, got, want in bad:
+                key = (flush, X, Y)
+                if key in seen:
+                    continue
+                seen.add(key)
+                if len(seen) > 6:
+                    break
+                r.ob(rule, f"{REL}::diff_ulp float{bits} x={X[0]}{'+' if X[1] > 0 else '-' if X[1] < 0 else '0'} y={Y[0]}{'+' if Y[1] > 0 else '-' if Y[1] < 0 else '0'} flush={flush}", False,
+                     f"on the path [{path}] (ix, iy: lattice ordinals of |x|, |y|; equal_nan={eqn}) the branch returns {got}; the lattice distance is {want}", loc(REL, scalar))
+        else:
+            r.ob(rule, f"{REL}::diff_ulp float{bits} scalar distance", True, "every (class, sign) pair, both flush modes and both equal_nan modes: returned value == lattice distance on every feasible path", loc(REL, scalar))
+    r.info(rule, f"diff_ulp scalar branch: {n_cases} abstract cases, {n_paths} feasible paths interpreted")
+    if nan_same_payload:
+        r.info(rule, "not part of C14 (finite values): two NaNs with identical bit patterns are at distance 0 even with equal_nan=False, NaNs with different payloads at 2**bits")
+
+
 def check_ulp_by_binade(r, repo, rule="R14.5"):
     """ulp(x) is decided for every float: the source of utils.ulp is interpreted once per (format, sign, binade) on an abstract
     value standing for all floats of that binade (frexp returns the binade's exponent, ldexp of a power of two is a power of two
@@ -329,10 +520,9 @@ def run(repo, tier):
         "of representable steps, additivity along chains and the flush remapping are numeric and NOT decided."
     )
     r.trusted_base = ["Python ast"]
-    r.rule("R14.1", "diff_ulp's scalar branch is symmetric in its arguments (swap-invariant canonical form)", floor=1)
     r.rule("R14.2", "complex distance = max(distance of real parts, distance of imaginary parts)", floor=1)
     r.rule("R14.3", "sequence branches pair elements positionally and forward flush_subnormals and equal_nan", floor=3)
-    r.rule("R14.4", "sign taken before abs(); zero has sign 0; integer views of absolute values; out-of-range marker 2**bits", floor=4)
+    r.rule("R14.4", "scalar branch: on every feasible path of every (class, sign) case the result equals the integer distance |pos(x) - pos(y)| on the float lattice (flushing: documented collapse map); non-finite pairs: 0 or the marker 2**bits", floor=3)
     r.rule("R14.5", "ulp(x) is the spacing of x's binade for every finite x (so the documented nextafter identities hold), smallest subnormal at 0, inf at infinities, NaN at NaN", floor=15)
 
     f = repo.func(REL, "diff_ulp")
@@ -347,17 +537,6 @@ def run(repo, tier):
                 cplx = n
     if scalar is None or cplx is None:
         raise AnalysisError("diff_ulp: scalar / complex branches not found")
-    # ---- R14.1
-    body = [_Dtype().visit(fresh_copy(st)) for st in scalar.body]
-    swapped = [_Swap().visit(_Dtype().visit(fresh_copy(st))) for st in scalar.body]
-    a, b = _canon_block(body), _canon_block(swapped)
-    ok = a == b
-    detail = ""
-    if not ok:
-        pa, pb = a.split("; "), b.split("; ")
-        diff = [(x, y) for x, y in zip(pa, pb) if x != y][:1]
-        detail = f"exchanging x and y changes the scalar branch: `{diff[0][0][:160]}` vs `{diff[0][1][:160]}`" if diff else "bodies differ in length"
-    r.ob("R14.1", f"{REL}::diff_ulp scalar branch swap-invariant", ok, detail, loc(REL, scalar))
     # ---- R14.2
     ret = [n for n in ast.walk(cplx) if isinstance(n, ast.Return)]
     ok = False
@@ -368,8 +547,16 @@ def run(repo, tier):
                 parts.append((norm_src(c.args[0]), norm_src(c.args[1]), {kw.arg: norm_src(kw.value) for kw in c.keywords}))
         ok = sorted(p[:2] for p in parts) == [("x.imag", "y.imag"), ("x.real", "y.real")] and all(p[2] == {"flush_subnormals": "flush_subnormals", "equal_nan": "equal_nan"} for p in parts)
     r.ob("R14.2", f"{REL}::diff_ulp complex branch", ok, f"complex branch returns `{norm_src(ret[0].value) if ret else None}`", loc(REL, cplx))
-    # ---- R14.3 recursive calls forward options, pair x_ with y_
+    # ---- R14.3 recursive calls forward options and pair the k-th element of x with the k-th element of y
+    zip_pairs = set()
     n3 = 0
+    for n in ast.walk(f):
+        if isinstance(n, (ast.For, ast.comprehension)) and isinstance(n.iter, ast.Call) and dotted(n.iter.func) == "zip":
+            n3 += 1
+            args_ok = [norm_src(a) for a in n.iter.args] == ["x", "y"]
+            r.ob("R14.3", f"{REL}::diff_ulp zip pairing", args_ok, f"iterates {norm_src(n.iter)}", loc(REL, n.iter))
+            if args_ok and isinstance(n.target, ast.Tuple) and len(n.target.elts) == 2 and all(isinstance(e, ast.Name) for e in n.target.elts):
+                zip_pairs.add((n.target.elts[0].id, n.target.elts[1].id))
     for c in calls_in(f):
         if dotted(c.func) == "diff_ulp" and len(c.args) == 2:
             a0, a1 = norm_src(c.args[0]), norm_src(c.args[1])
@@ -377,35 +564,14 @@ def run(repo, tier):
                 continue
             n3 += 1
             kws = {kw.arg: norm_src(kw.value) for kw in c.keywords}
-            paired = (a0, a1) in (("x_", "y_"), ("x[()]", "y[()]"), ("x[()]", "y"), ("x", "y[()]"))
-            r.ob("R14.3", f"{REL}::diff_ulp recursive call ({a0}, {a1})", paired and kws == {"flush_subnormals": "flush_subnormals", "equal_nan": "equal_nan"},
-                 f"recursive call diff_ulp({a0}, {a1}, {kws})", loc(REL, c))
-    for n in ast.walk(f):
-        if isinstance(n, (ast.For, ast.comprehension)) and isinstance(n.iter, ast.Call) and dotted(n.iter.func) == "zip":
-            n3 += 1
-            r.ob("R14.3", f"{REL}::diff_ulp zip pairing", [norm_src(a) for a in n.iter.args] == ["x", "y"], f"iterates {norm_src(n.iter)}", loc(REL, n.iter))
+            paired = (a0, a1) in zip_pairs or (a0, a1) in (("x[()]", "y[()]"), ("x[()]", "y"), ("x", "y[()]"))
+            what = "element pair of zip(x, y)" if (a0, a1) in zip_pairs else f"({a0}, {a1})"
+            r.ob("R14.3", f"{REL}::diff_ulp recursive call on {what}", paired and kws == {"flush_subnormals": "flush_subnormals", "equal_nan": "equal_nan"},
+                 f"recursive call diff_ulp({a0}, {a1}, {kws}); element pairs of zip(x, y): {sorted(zip_pairs)}", loc(REL, c))
     if n3 < 3:
         raise AnalysisError("diff_ulp: recursive calls not found")
     # ---- R14.4
-    env = {}
-    order = []
-    for st in scalar.body:
-        if isinstance(st, ast.Assign):
-            for t, v in (zip(st.targets[0].elts, st.value.elts) if isinstance(st.targets[0], ast.Tuple) and isinstance(st.value, ast.Tuple) else [(st.targets[0], st.value)]):
-                env[dotted(t)] = norm_src(v)
-                order.append(dotted(t))
-    sign_ok = env.get("sx") == "-1 if x < 0 else 1 if x > 0 else 0" and env.get("sy") == "-1 if y < 0 else 1 if y > 0 else 0"
-    r.ob("R14.4", f"{REL}::diff_ulp sign of the arguments (zero has sign 0)", sign_ok, f"sx = {env.get('sx')}; sy = {env.get('sy')}", loc(REL, scalar))
-    abs_ok = env.get("x") == "abs(x)" and env.get("y") == "abs(y)" and order.index("sx") < order.index("x") and order.index("x") < order.index("ix")
-    r.ob("R14.4", f"{REL}::diff_ulp signs before abs(), integer views after abs()", abs_ok, f"assignment order {order}", loc(REL, scalar))
-    view_ok = env.get("ix") == "int(x.view(uint))" and env.get("iy") == "int(y.view(uint))"
-    r.ob("R14.4", f"{REL}::diff_ulp integer views", view_ok, f"ix = {env.get('ix')}; iy = {env.get('iy')}", loc(REL, scalar))
-    marker = [n for n in ast.walk(scalar) if isinstance(n, ast.Dict) and any(isinstance(ev(v), int) and ev(v) > 2 ** 15 for v in n.values)]
-    ok = bool(marker) and all(ev(v) == 2 ** {"numpy.float64": 64, "numpy.float32": 32, "numpy.float16": 16}[dotted(k)] for k, v in zip(marker[0].keys, marker[0].values))
-    r.ob("R14.4", f"{REL}::diff_ulp out-of-range marker", ok, "marker for non-finite pairs is not 2**bits", loc(REL, scalar))
-    # equal infinities are at distance 0
-    eqinf = any(isinstance(n, ast.If) and _canon_expr(n.test) == _canon_expr(ast.parse("ix == iy and sx == sy", mode="eval").body) and any(isinstance(x, ast.Return) and norm_src(x.value) == "0" for x in n.body) for n in ast.walk(scalar))
-    r.ob("R14.4", f"{REL}::diff_ulp identical non-finite values have distance 0", eqinf, "`elif ix == iy and sx == sy: return 0` not found", loc(REL, scalar))
+    check_scalar_distance(r, repo, scalar)
     # ---- R14.5 ulp
     check_ulp_by_binade(r, repo)
     return r
